@@ -88,10 +88,15 @@ class Scope:
             if c.name == "deserr":
                 per_crate[id(c)] = {b.path: b for b in c.bodies}
         used_all = set()
+        lib_idx = None
+        for c in self.crates:
+            if c.name == "deserr":
+                lib_idx = per_crate[id(c)]
         for c, b, role in list(self.members):
-            if role in ("helper", "helper-closure") or c.name != "deserr":
+            if role in ("helper", "helper-closure"):
                 continue
-            idx = per_crate.get(id(c))
+            # generated code (user crate) may delegate to run-time helpers of the library: same expansion, across crates
+            idx = per_crate.get(id(c)) if c.name == "deserr" else lib_idx
             if idx is None:
                 continue
             nb, used = inl.inline_body(c, b, idx)
